@@ -710,3 +710,251 @@ Proof.
       eapply (inv_step v); eauto.
 Qed.
 End Exact.
+
+(* ---- "context produced by node j": j is the LAST node that declares the key -------------------------------------
+   With key_origin recording the last creator (origin_last), a parameter reported as coming from node j finds that
+   node j declares the key and no node between j and the reader does; together with the frame lemmas (a node that
+   neither declares nor suppresses a key leaves its value alone) the value the reader resolves is the one present
+   right after node j ran. *)
+Lemma nlookup_nupdate k j v m : nlookup k (nupdate j v m) = if String.eqb k j then Some v else nlookup k m.
+Proof.
+  induction m as [|[k' v'] tl IH]; simpl.
+  - destruct (String.eqb k j); reflexivity.
+  - destruct (String.eqb_spec j k') as [->|Hn]; simpl.
+    + destruct (String.eqb k k'); reflexivity.
+    + destruct (String.eqb_spec k k') as [->|Hk]; simpl.
+      * destruct (String.eqb_spec k' j) as [->|]; [congruence|reflexivity].
+      * exact IH.
+Qed.
+
+Lemma nlookup_fold_nupdate idx k : forall cr (m : list (string * nat)),
+  nlookup k (fold_left (fun (m : list (string * nat)) (j : string) => nupdate j idx m) cr m) =
+  if smem k cr then Some idx else nlookup k m.
+Proof.
+  induction cr as [|x tl IH]; intros m; simpl; [reflexivity|].
+  rewrite IH, nlookup_nupdate. unfold smem at 2. simpl.
+  destruct (smem k tl) eqn:E; unfold smem in E; rewrite E; [rewrite orb_true_r; reflexivity|].
+  rewrite orb_false_r. reflexivity.
+Qed.
+
+Section LastCreator.
+Variable v : variant.
+Hypothesis Hol : origin_last v = true.
+
+(* key_origin after a constructible node *)
+Lemma inspect_node_key_origin idx n o st r st' k :
+  inspect_node v idx (n, o) st = (r, st') -> r_invalid r = false ->
+  nlookup k (key_origin st') = if smem k (created_of n) then Some idx else nlookup k (key_origin st).
+Proof.
+  intros H Hr. unfold inspect_node in H.
+  destruct (construct n) as [[]|[s cls w]]; [|injection H as <- _; discriminate].
+  injection H as _ <-. simpl. rewrite Hol.
+  rewrite nlookup_fold_nupdate.
+  destruct (smem k (created_of n)) eqn:C; [reflexivity|].
+  rewrite smem_created_of in C. apply orb_false_iff in C as [_ C].
+  destruct (pr_kind (n_proc n)); try reflexivity. destruct (n_ckey n) as [key|]; try reflexivity.
+  rewrite nlookup_nupdate, C. reflexivity.
+Qed.
+
+(* the invariant: every recorded origin j (numbering from idx0) points at a node of the prefix that declares the key,
+   and no later node of the prefix declares it *)
+Definition KInv (idx0 : nat) (pre : list inode) (st : istate) : Prop :=
+  forall k j, nlookup k (key_origin st) = Some j ->
+  idx0 <= j /\ j < idx0 + List.length pre /\
+  (exists n o, nth_error pre (j - idx0) = Some (n, o) /\ smem k (created_of n) = true) /\
+  (forall i n' o', j - idx0 < i -> nth_error pre i = Some (n', o') -> smem k (created_of n') = false).
+
+Lemma kinv_step idx0 pre n o st r st' :
+  inspect_node v (idx0 + List.length pre) (n, o) st = (r, st') -> r_invalid r = false ->
+  KInv idx0 pre st -> KInv idx0 (pre ++ [(n, o)]) st'.
+Proof.
+  intros H Hr HK k j Hj.
+  rewrite (inspect_node_key_origin _ _ _ _ _ _ k H Hr) in Hj.
+  rewrite app_length. simpl.
+  destruct (smem k (created_of n)) eqn:C.
+  - injection Hj as <-. repeat split; try lia.
+    + exists n, o. replace (idx0 + List.length pre - idx0) with (List.length pre) by lia.
+      rewrite nth_error_app2 by lia. rewrite Nat.sub_diag. split; [reflexivity|exact C].
+    + intros i n' o' Hi Hn. replace (idx0 + List.length pre - idx0) with (List.length pre) in Hi by lia.
+      assert (X : nth_error (pre ++ [(n, o)]) i = None).
+      { apply nth_error_None. rewrite app_length. simpl. lia. }
+      congruence.
+  - destruct (HK k j Hj) as (A & B & (n0 & o0 & N0 & C0) & D). repeat split; try lia.
+    + exists n0, o0. split; auto. rewrite nth_error_app1 by lia. exact N0.
+    + intros i n' o' Hi Hn. destruct (Nat.lt_ge_cases i (List.length pre)) as [L|G].
+      * rewrite nth_error_app1 in Hn by exact L. eapply D; eauto.
+      * rewrite nth_error_app2 in Hn by exact G.
+        destruct (i - List.length pre) as [|m] eqn:E; simpl in Hn; [|destruct m; discriminate].
+        injection Hn as <- _. exact C.
+Qed.
+
+(* a key some node of the prefix suppresses stays in the deleted set until a later node creates it again *)
+Definition SInv (pre : list inode) (st : istate) : Prop :=
+  forall k i n' o', nth_error pre i = Some (n', o') -> smem k (suppressed_of n') = true ->
+  smem k (deleted st) = true \/
+  exists i2 n2 o2, i < i2 /\ nth_error pre i2 = Some (n2, o2) /\ smem k (created_of n2) = true.
+
+Lemma sinv_step idx pre n o st r st' :
+  inspect_node v idx (n, o) st = (r, st') -> r_invalid r = false ->
+  SInv pre st -> SInv (pre ++ [(n, o)]) st'.
+Proof.
+  intros H Hr HS k i n' o' Hn Hs.
+  destruct (inspect_node_state v idx n o st r st' H Hr) as (Hdel & _ & _). rewrite Hdel.
+  destruct (Nat.lt_ge_cases i (List.length pre)) as [L|G].
+  - rewrite nth_error_app1 in Hn by exact L.
+    destruct (HS k i n' o' Hn Hs) as [D|(i2 & n2 & o2 & A & B & C)].
+    + destruct (smem k (created_of n)) eqn:Cn.
+      * destruct (smem k (suppressed_of n)); [left; rewrite orb_true_r; reflexivity|].
+        right. exists (List.length pre), n, o. split; [exact L|]. split; [|exact Cn].
+        rewrite nth_error_app2 by lia. rewrite Nat.sub_diag. reflexivity.
+      * left. rewrite D. reflexivity.
+    + right. exists i2, n2, o2. split; auto. split; auto.
+      rewrite nth_error_app1; [exact B|]. apply nth_error_Some. congruence.
+  - rewrite nth_error_app2 in Hn by exact G.
+    destruct (i - List.length pre) as [|m] eqn:E; simpl in Hn; [|destruct m; discriminate].
+    injection Hn as <- _. left. rewrite Hs. apply orb_true_r.
+Qed.
+
+Theorem origin_names_last_creator : forall p idx0 pre st rs stf,
+  inspect_from v (idx0 + List.length pre) p st = (rs, stf) ->
+  forallb node_ok rs = true ->
+  KInv idx0 pre st -> SInv pre st ->
+  forall k n o r name j,
+  nth_error p k = Some (n, o) -> nth_error rs k = Some r ->
+  In (name, OContext (Some j)) (r_origins r) ->
+  idx0 <= j /\ j < idx0 + List.length pre + k /\
+  (exists nj oj, nth_error (pre ++ p) (j - idx0) = Some (nj, oj) /\ smem name (created_of nj) = true) /\
+  (forall i n' o', j - idx0 < i -> i < List.length pre + k -> nth_error (pre ++ p) i = Some (n', o') ->
+     smem name (created_of n') = false /\ smem name (suppressed_of n') = false).
+Proof.
+  induction p as [|[n0 o0] tl IH]; intros idx0 pre st rs stf H Hok HK HS k n o r name j Hnth Hr Hin.
+  - destruct k; discriminate.
+  - rewrite inspect_from_cons in H. destruct (inspect_node v (idx0 + List.length pre) (n0, o0) st) as [r0 st'] eqn:E.
+    destruct (inspect_from v (S (idx0 + List.length pre)) tl st') as [rs' stf'] eqn:E2. injection H as <- <-.
+    simpl in Hok. rewrite node_ok_shadow in Hok. apply andb_true_iff in Hok as [Hr0 Hrs].
+    assert (Hinv : r_invalid r0 = false).
+    { unfold node_ok in Hr0. apply andb_true_iff in Hr0 as [X _]. apply negb_true_iff in X. exact X. }
+    destruct k as [|k].
+    + simpl in Hnth, Hr. injection Hnth as -> ->. injection Hr as <-.
+      (* the reported origin is the classification against st (the second pass leaves OContext (Some _) alone) *)
+      assert (Hcl : classify n st name = OContext (Some j)).
+      { unfold shadow in Hin. destruct (default_second_pass v).
+        - simpl in Hin. apply in_map_iff in Hin as [[nm og] [Erc Hin0]].
+          destruct (inspect_node_origins v (idx0 + List.length pre) n o st r0 st' E nm og Hin0) as (_ & Hog & _).
+          unfold reclass in Erc. simpl in Erc. destruct og as [| |j0].
+          + discriminate Erc.
+          + destruct (smem nm _ && negb _); discriminate Erc.
+          + injection Erc as -> ->. symmetry. exact Hog.
+        - destruct (inspect_node_origins v (idx0 + List.length pre) n o st r0 st' E name _ Hin) as (_ & Hog & _). symmetry. exact Hog. }
+      assert (Hlk : nlookup name (key_origin st) = Some j /\ smem name (deleted st) = false).
+      { unfold classify in Hcl. destruct (has name (n_cfg n)); [discriminate|].
+        destruct (nlookup name (key_origin st)) as [j0|]; [|destruct (has name (pr_defaults (n_proc n))); discriminate].
+        destruct (smem name (deleted st)); [destruct (has name (pr_defaults (n_proc n))); discriminate|].
+        injection Hcl as ->. split; reflexivity. }
+      destruct Hlk as [Hlk Hnd].
+      destruct (HK name j Hlk) as (A & B & (nj & oj & Nj & Cj) & D).
+      split; [lia|]. split; [lia|]. split.
+      { exists nj, oj. split; auto. rewrite nth_error_app1 by lia. exact Nj. }
+      intros i n' o' Hi Hlt Hn. rewrite nth_error_app1 in Hn by lia. split.
+      { eapply D; eauto. }
+      destruct (smem name (suppressed_of n')) eqn:Sp; [|reflexivity]. exfalso.
+      destruct (HS name i n' o' Hn Sp) as [X|(i2 & n2 & o2 & X1 & X2 & X3)]; [congruence|].
+      rewrite (D i2 n2 o2) in X3; [discriminate|lia|exact X2].
+    + simpl in Hnth, Hr.
+      pose proof (kinv_step idx0 pre n0 o0 st r0 st' E Hinv HK) as HK'.
+      pose proof (sinv_step _ pre n0 o0 st r0 st' E Hinv HS) as HS'.
+      assert (Hlen : S (idx0 + List.length pre) = idx0 + List.length (pre ++ [(n0, o0)])%list) by (rewrite app_length; simpl; lia).
+      rewrite Hlen in E2.
+      destruct (IH idx0 (pre ++ [(n0, o0)])%list st' rs' stf' E2 Hrs HK' HS' k n o r name j Hnth Hr Hin) as (A & B & C & D).
+      rewrite app_length in B. simpl in B.
+      rewrite <- app_assoc in C. simpl in C.
+      split; [lia|]. split; [lia|]. split; [exact C|].
+      intros i n' o' Hi Hlt Hn. eapply D; eauto.
+      * rewrite app_length. simpl. lia.
+      * rewrite <- app_assoc. simpl. exact Hn.
+Qed.
+End LastCreator.
+
+Lemma kinv_init idx0 : KInv idx0 [] init_state.
+Proof. intros k j H. discriminate. Qed.
+Lemma sinv_init st : SInv [] st.
+Proof. intros k i n' o' H. destruct i; discriminate. Qed.
+
+(* ---- ... and the value the reader resolves is the one present right after node j ran ------------------------------ *)
+Lemma exec_frame n d c d' c' k :
+  exec_node n (d, c) = Ok (d', c') -> smem k (created_of n) = false -> smem k (suppressed_of n) = false ->
+  lookup k c' = lookup k c.
+Proof.
+  intros H Hc Hs. rewrite smem_created_of in Hc. apply orb_false_iff in Hc as [Hc Hp].
+  unfold suppressed_of, is_ctx in Hs.
+  destruct (pr_kind (n_proc n)) eqn:K.
+  1-4: (destruct (exec_data_node n d c (d', c')) as (_ & ps & dd & pv & ops & c1 & R & P & W & E);
+        [rewrite K; reflexivity|exact H|]; rewrite K in E;
+        pose proof (apply_op_writes_frame _ _ _ _ W k Hc) as F).
+  - injection E as _ ->. exact F.
+  - injection E as _ ->. exact F.
+  - destruct (n_ckey n) as [key|]; injection E as _ ->; [|exact F].
+    rewrite lookup_update_other; [exact F|]. intro X. subst key. rewrite String.eqb_refl in Hp. discriminate.
+  - injection E as _ ->. exact F.
+  - destruct (ctxproc_frame n d c d' c' K H) as [_ F]. apply F; assumption.
+Qed.
+
+Lemma run_frame name : forall q i d c d' c',
+  run_from i q (d, c) = Done (d', c') ->
+  (forall n, In n q -> smem name (created_of n) = false /\ smem name (suppressed_of n) = false) ->
+  lookup name c' = lookup name c.
+Proof.
+  induction q as [|n tl IH]; intros i d c d' c' H Hq; cbn [run_from] in H.
+  - injection H as _ <-. reflexivity.
+  - destruct (exec_node n (d, c)) as [[d1 c1]|e] eqn:E; [|discriminate H].
+    rewrite (IH _ _ _ _ _ H (fun m Hm => Hq m (or_intror Hm))).
+    destruct (Hq n (or_introl eq_refl)) as [A B]. eapply exec_frame; eauto.
+Qed.
+
+Lemma nth_error_firstn_lt {A} : forall n (l : list A) i, i < n -> nth_error (firstn n l) i = nth_error l i.
+Proof.
+  induction n as [|n IH]; intros l i H; [lia|]. destruct l as [|x tl]; [destruct i; reflexivity|].
+  destruct i as [|i]; simpl; [reflexivity|]. apply IH. lia.
+Qed.
+Lemma nth_error_skipn_add {A} : forall n (l : list A) i, nth_error (skipn n l) i = nth_error l (n + i).
+Proof.
+  induction n as [|n IH]; intros l i; simpl; [reflexivity|]. destruct l as [|x tl]; [destruct i; reflexivity|]. apply IH.
+Qed.
+
+Theorem value_from_last_creator v : origin_last v = true -> forall p rs stf,
+  inspect_from v 1 p init_state = (rs, stf) ->
+  forallb node_ok rs = true ->
+  forall k n o r name j d0 c0 d' c',
+  nth_error p k = Some (n, o) -> nth_error rs k = Some r ->
+  In (name, OContext (Some j)) (r_origins r) ->
+  run (firstn k (map fst p)) (d0, c0) = Done (d', c') ->
+  1 <= j <= k /\
+  (exists nj oj, nth_error p (j - 1) = Some (nj, oj) /\ smem name (created_of nj) = true) /\
+  exists dj cj, run (firstn j (map fst p)) (d0, c0) = Done (dj, cj) /\ lookup name c' = lookup name cj.
+Proof.
+  intros Hol p rs stf HI Hok k n o r name j d0 c0 d' c' Hnth Hr Hin Hrun.
+  destruct (origin_names_last_creator v Hol p 1 [] init_state rs stf HI Hok (kinv_init 1) (sinv_init _)
+              k n o r name j Hnth Hr Hin) as (A & B & (nj & oj & Nj & Cj) & D).
+  simpl in B, Nj, D.
+  split; [lia|]. split; [exists nj, oj; auto|].
+  (* firstn k = firstn j ++ (nodes j .. k-1) *)
+  assert (Hsplit : firstn k (map fst p) = (firstn j (map fst p) ++ firstn (k - j) (skipn j (map fst p)))%list).
+  { rewrite <- (firstn_skipn j (map fst p)) at 1. rewrite firstn_app.
+    rewrite firstn_length. assert (Lk : k < List.length (map fst p)).
+    { assert (X : nth_error p k <> None) by (rewrite Hnth; discriminate).
+      apply nth_error_Some in X. rewrite map_length. exact X. }
+    rewrite Nat.min_l by lia. rewrite firstn_firstn. rewrite Nat.min_r by lia. reflexivity. }
+  rewrite Hsplit in Hrun. unfold run in Hrun. rewrite run_from_app in Hrun.
+  destruct (run_from 0 (firstn j (map fst p)) (d0, c0)) as [[dj cj]|x e|x e] eqn:Rj; try discriminate.
+  exists dj, cj. split; [exact Rj|].
+  eapply run_frame; [exact Hrun|].
+  intros m Hm. apply In_nth_error in Hm as [t Ht].
+  (* m is the node at position j + t < k of p *)
+  assert (Lt : t < k - j).
+  { assert (X : nth_error (firstn (k - j) (skipn j (map fst p))) t <> None) by congruence.
+    apply nth_error_Some in X. rewrite firstn_length in X. lia. }
+  rewrite nth_error_firstn_lt in Ht by exact Lt. rewrite nth_error_skipn_add in Ht.
+  rewrite nth_error_map in Ht. destruct (nth_error p (j + t)) as [[n' o']|] eqn:Np; cbn [option_map fst] in Ht.
+  - unfold inode in *. rewrite Np in Ht. simpl in Ht. injection Ht as <-. apply (D (j + t) n' o'); [lia|lia|exact Np].
+  - unfold inode in *. rewrite Np in Ht. discriminate Ht.
+Qed.
